@@ -66,6 +66,9 @@ class SeqRun(seq_hooks.HooksMixin, object):
         self.op_index = None
         self.sess_index = None
         self.want_c13 = case.get('c13', True)
+        # checks of other properties go on after a failed call changed the session (the model stays where it was):
+        # what the damaged session does next is judged by their own oracles
+        self.go_on_after_c13 = bool(case.get('go_on_after_c13'))
         self.want_inv = case.get('invariants', True)
         self.fault_fired_in_session = False
         self.c13_hits = 0
@@ -77,6 +80,10 @@ class SeqRun(seq_hooks.HooksMixin, object):
 
     # ------------------------------------------------------------------ infrastructure
     def viol(self, prop, sub, shape, detail):
+        if getattr(self, 'blind', False):
+            # the program caught a database error and carried on: the model no longer claims to follow the
+            # session, only the all-or-nothing comparison when the session has been rolled back is judged
+            return
         key = '%s|%s|%s' % (prop, sub, shape)
         if prop == 'C13':
             self.c13_hits += 1
@@ -106,6 +113,8 @@ class SeqRun(seq_hooks.HooksMixin, object):
                 con.execute('PRAGMA cache_size = %d' % cs)
         db.bind('sqlite', self.path, create_db=True, timeout=0)
         db.generate_mapping(create_tables=True)
+        if self.knobs.get('legacy_keys'):
+            self.strip_unique_constraints()
         procstate.register_db(db)
         self.E = dict((e.name, ns[e.name]) for e in self.schema.entities)
         if self.knobs.get('max_params_count'):
@@ -117,6 +126,36 @@ class SeqRun(seq_hooks.HooksMixin, object):
                         getattr(self.E[e.name], a.name).nplus1_threshold = self.knobs['nplus1']
         self.dump_sql = self._make_dump_sql()
         simdb.ctx.after_call = self.after_db_call
+
+    def strip_unique_constraints(self):
+        """re-create the (still empty) tables without UNIQUE constraints on non-primary keys"""
+        import re
+        import sqlite3
+        self.db.disconnect()
+        con = sqlite3.connect(self.path, isolation_level=None)
+        try:
+            con.execute('PRAGMA foreign_keys = OFF')
+            items = con.execute("SELECT type, name, sql FROM sqlite_master WHERE sql IS NOT NULL "
+                                "AND name NOT LIKE 'sqlite_%' ORDER BY rowid").fetchall()
+            for typ, name, sql in items:
+                if typ == 'table':
+                    con.execute('DROP TABLE "%s"' % name)
+            for typ, name, sql in items:
+                if typ == 'table':
+                    sql = re.sub(r',\s*CONSTRAINT "unq_[^"]*" UNIQUE \([^)]*\)', '', sql)
+                    sql = sql.replace(' UNIQUE', '')
+                    assert 'UNIQUE' not in sql, sql
+                con.execute(sql)
+        finally:
+            con.close()
+
+    def raw_rows(self, sql):
+        import sqlite3
+        con = sqlite3.connect(self.path, isolation_level=None)
+        try:
+            return con.execute(sql).fetchall()
+        finally:
+            con.close()
 
     def after_db_call(self, ev):
         """The committed model moves exactly when a real COMMIT of an open transaction returns: whatever
@@ -409,7 +448,7 @@ class SeqRun(seq_hooks.HooksMixin, object):
                 # an internal error instead of a clean refusal: the property only demands that the session is
                 # unchanged (checked above), not a particular exception class - recorded as an observation
                 self.probe('obs_internal_error_instead_of_refusal_' + type(e).__name__)
-            if self.c13_hits > n_viol:
+            if self.c13_hits > n_viol and not (self.go_on_after_c13 and not fault):
                 # the session is now in a state the model cannot follow: abandon it (no cascading alarms)
                 raise Poisoned()
             return ('refused', e)
@@ -421,6 +460,11 @@ class SeqRun(seq_hooks.HooksMixin, object):
                       '%s was accepted, but the documented rule refuses it: %s' % (desc, r))
             raise Poisoned()
         self.view = v2
+        if must_fail and self.knobs.get('legacy_keys'):
+            # tables without UNIQUE constraints (a legacy schema mapped with create_tables=False): the identity
+            # map is the only thing that can report the conflict, and only for a key held by a loaded object
+            self.legacy_duplicate_accepted(desc, must_fail)
+            raise Poisoned()
         if must_fail:
             # Pony accepted a change that duplicates a key of a row it has not loaded (R3).  The session's
             # identity map can no longer be followed by the model, so the flush that must report the
@@ -434,6 +478,34 @@ class SeqRun(seq_hooks.HooksMixin, object):
         self.probe('modification_accepted')
         self.trace.append('%s.%s OK   %s' % (self.sess_index, self.op_index, desc))
         return ('ok', res)
+
+    def legacy_duplicate_accepted(self, desc, dup):
+        h = self.handles.get(getattr(dup, 'other', None))
+        known = False
+        if h is not None and h._vals_ is not None and h._status_ not in ('deleted', 'cancelled', 'marked_to_delete'):
+            E = self.E[dup.ent]
+            known = all(h._vals_.get(getattr(E, n), core.NOT_LOADED) is not core.NOT_LOADED for n in dup.attrs)
+            if known and dup.mid is not None:
+                # the changed object as well: Pony computes its new key from the parts it has loaded
+                h2 = self.handles.get(dup.mid)
+                known = h2 is not None and h2._vals_ is not None and all(
+                    h2._vals_.get(getattr(E, n), core.NOT_LOADED) is not core.NOT_LOADED for n in dup.attrs)
+        if not known:
+            self.probe('legacy_duplicate_of_unloaded_row')      # nobody can know: no verdict
+            return
+        self.probe('legacy_duplicate_of_loaded_object')
+        try:
+            orm.commit()
+        except Exception as e:
+            self.probe('legacy_duplicate_reported_at_commit_' + type(e).__name__)
+            return
+        rows = self.raw_rows('SELECT %s FROM %s' % (', '.join('"%s"' % getattr(self.E[dup.ent], n).column for n in dup.attrs),
+                                                    '"%s"' % self.E[dup.ent]._table_))
+        n = sum(1 for r in rows if tuple(r) == tuple(dup.vals))
+        if n > 1:
+            self.viol('C14', 'duplicate-key-committed', 'op=%s' % desc.split(' ')[0],
+                      '%s duplicates %s held by an object loaded in the session; nothing reported it and %d rows '
+                      'with that key were committed (table without UNIQUE constraint)' % (desc, dup, n))
 
     # ------------------------------------------------------------------ invariants after every op
     def after_op(self):
